@@ -15,7 +15,7 @@ import (
 func scenarios(tier string) []engine.Scenario {
 	var scs []engine.Scenario
 	// interleave the families so that the round-robin distribution gives every worker a similar mix
-	fam := [][]engine.Scenario{brScenarios(tier), extProdScenarios(tier), rgswAlgScenarios(tier)}
+	fam := [][]engine.Scenario{brScenarios(tier), extProdScenarios(tier), rgswAlgScenarios(tier), rgswPtScenarios(tier)}
 	for i := 0; ; i++ {
 		any := false
 		for _, f := range fam {
@@ -45,6 +45,7 @@ func main() {
 			"extlevels/: RLWE ciphertext above the RGSW level, output in place / fresh at either level, result read at the RGSW level; exthistory/: one evaluator through a sequence of products of different levels, #P and decompositions, bit-compared with a fresh evaluator; " +
 			"blindrot/ additionally: equal ring degrees, asymmetric intervals with f(a) ≠ −f(b), non-prefix slot triples, LWE samples with two moduli at both levels, keys generated below the top level, every Evaluate of the subsets pattern replayed on a fresh evaluator and bit-compared; " +
 			"size thresholds: single LWE moduli of 55 and 60 bits (x·2N_BR beyond 64 bits) against N_BR = 32..512, judged by the documented modulus switch computed with big integers; thorough: N_BR up to 2048 and LWE dimension up to 1024 (slot patterns 'spread' = 4·N_LWE grid points spread over the circle, 'mini' = three small slot sets). " +
+			"rgswpt/: rgsw.NewPlaintext / rlwe.NewGadgetPlaintext for every operand kind (uint64, int64, *ring.Poly, ring.Poly by value; other kinds must be refused with an error) × base two × (levelQ, levelP): operand intact, the same operand used for a second plaintext at another decomposition, no memory shared, each plaintext judged through RGSW(0)+pt (rows and product); rgswenc-rlwe/: the rlwe-ciphertext branch of rgsw.Encryptor.Encrypt / EncryptZero. " +
 			"brhistory/: every ordered sequence of 2 (thorough: 3) calls from an alphabet of call shapes (LWE level of a 2- or 3-modulus chain, slot map and test-polynomial set, key set generated at the top / middle / bottom level, and refused calls: missing Galois key, test polynomial with too few moduli, sample above the ring) on one blindrot.Evaluator, each call bit-compared at the key level with a fresh evaluator; exthistory/ also interleaves calls the rgsw.Evaluator cannot serve. " +
 			"brgrow/: evaluation with exactly the Galois keys a reference run requested, then with a key set that gained the remaining keys on the same evaluator. " +
 			"distinct_nontrivial counts (path, plaintext class, noise magnitude) resp. (variant, function, inside/outside, exact-hit) classes.",
@@ -92,6 +93,8 @@ func main() {
 			}
 			e = append(e, "br-variant=singleP-lwe60", "br-variant=singleP-lwe55", "br-variant=multipleP-lwe60", "br-pair=16,512",
 				"br-slots=spre", "br-slots=mini", "modswitch-product=x*2N>=2^64")
+			e = append(e, "rgswpt-kind=uint64", "rgswpt-kind=int64", "rgswpt-kind=*ring.Poly", "rgswpt-kind=ring.Poly", "rgswpt-kind=refused-kinds",
+				"rgswpt=32bit", "rgswpt=noP", "rgswpt=singleP", "rgswpt=multipleP", "rgswenc-rlwe=EncryptZero", "rgswenc-rlwe=Encrypt")
 			e = append(e, "brhistory=lwe2-br2", "brhistory=lwe3-br3", "brhistory=lwe3-br2", "brhistory-refused=error", "brhistory-refused=panic",
 				"exthistory-refused=panic", "br-variant=multipleP3-lwe3@0", "br-variant=multipleP3-lwe3@1", "br-variant=multipleP3-lwe3@2")
 			if tier == "thorough" {
